@@ -1171,6 +1171,33 @@ func runArena(c *core.Ctx) {
 			once{}.violate(c, "reuse:"+f, "PEAlign gives different results with a reused and with a fresh arena", w)
 			return
 		}
+		// the same read OBJECT comes back to the reused arena with other content of the same length
+		// (reverse-complemented in place to try the other orientation, or refilled): nothing derived
+		// from its former content may be used
+		if k%3 == 0 && len(pr.A) >= 4 && r.o.Panic == "" {
+			sa, sb := mkseq("a", pr.A, pr.QA), mkseq("b", pr.B, pr.QB)
+			s.align(sa, sb, p)
+			var a2, q2 []byte
+			if k%2 == 0 {
+				sa.ReverseComplement(true)
+				a2, q2 = append([]byte{}, sa.Sequence()...), append([]byte{}, sa.Qualities()...)
+			} else {
+				a2 = gen.DNA(c.Rng, len(pr.A))
+				q2 = append([]byte{}, pr.QA...)
+				sa.SetSequence(append([]byte{}, a2...))
+				sa.SetQualities(append([]byte{}, q2...))
+			}
+			o2 := s.align(sa, sb, p)
+			f2 := newSession(len(a2), len(pr.B)).align(mkseq("a", a2, q2), mkseq("b", pr.B, pr.QB), p)
+			evals++
+			if f := sameOutcome(o2, f2); f != "" && !(o2.Panic != "" && f2.Panic != "") {
+				w := witness(gen.PEPair{A: a2, QA: q2, B: pr.B, QB: pr.QB}, p, o2)
+				w["fresh_arena_fresh_objects"] = witness(gen.PEPair{A: a2, QA: q2, B: pr.B, QB: pr.QB}, p, f2)
+				w["read_A_before_the_edit"] = string(pr.A)
+				once{}.violate(c, "reuse:object-edited-in-place:"+f, "PEAlign gives another result for a read object whose content was replaced (same length) than for a new object with that content", w)
+				return
+			}
+		}
 		if cl, _, _, _ := ref.PEPathCheck(fo.Path, len(pr.A), len(pr.B)); r.o.Panic != "" || r.class != "" || fo.Panic != "" || cl != "" {
 			return
 		}
@@ -1209,7 +1236,7 @@ func init() {
 			"random / homopolymer-rich / tandem-repeat / two-letter templates; substitutions and indels at 0..10 %, IUPAC symbols at 0..10 %, eight quality profiles over 0..93) x {exact, fast-relative, fast-absolute} x delta {0,1,2,5,10,20} x gap {0.5..4} x scale {0.5..2}, " +
 			"streams of 24 pairs through ONE arena and shift map of varying initial size; plus the exhaustive grid of read lengths 1..9 x 1..9 in both modes. The real PEAlign / PELeftAlign / PERightAlign / BuildQualityConsensus / AssemblePESequences run on every pair; " +
 			"the oracle is written from the documented end-gap-free scheme (harness/ref/c08_pe.go). " +
-			"Added later: concurrent sub-check (one arena per goroutine, 2-16 goroutines, results compared with those obtained alone). min-identity thresholds placed on and a hair beside the identity of the overlap under test. " +
+			"Added later: concurrent sub-check (one arena per goroutine, 2-16 goroutines, results compared with those obtained alone). min-identity thresholds placed on and a hair beside the identity of the overlap under test. A read object whose content is replaced in place between two alignments with the same arena; first-call: the first alignment of a fresh process (no table read before) compared with the same alignment made later and with the score along its path. " +
 			"distinct_nontrivial = distinct (sub-check, geometry, code branch exact|fast-identical|fast-dp x left|right, mode, length classes of both reads, errors present, IUPAC present, quality profile, sub-check specific class) among pairs whose reads both hold a 4-mer and whose path has at least one paired column",
 		Assume: []string{
 			"reads are non-empty, over the lower-case IUPAC nucleotide alphabet, with qualities 0..93; B is given in the orientation of A",
@@ -1229,6 +1256,7 @@ func init() {
 			{Name: "stats", N: core.Const(400, 4000), Run: runStats},
 			{Name: "reassembly", N: core.Const(560, 6000), Run: runReassembly},
 			{Name: "arena", N: core.Const(300, 3000), Run: runArena},
+			{Name: "first-call", N: core.Const(12, 60), Run: runFirst},
 			{Name: "concurrent", N: core.Const(16, 128), Run: runConcurrent, Race: true, NRace: core.Const(4, 16), TimeoutS: 600},
 		},
 		RaceFiles:     []string{"pkg/obialign/pairedendalign.go", "pkg/obialign/alignment.go", "pkg/obialign/backtracking.go", "pkg/obialign/dnamatrix.go", "pkg/obikmer/encodefourmer.go", "pkg/obitools/obipairing/"},
